@@ -93,6 +93,11 @@ func main() {
 				fmt.Fprintf(w, "%s BADCASE\n", hd[len(hd)-1])
 				continue
 			}
+			if primeFailed != "" {
+				fmt.Fprintf(w, "%s PRIME-FAIL: %s\n", hd[1], primeFailed)
+				w.Flush()
+				continue
+			}
 			fmt.Fprintf(w, "%s %s\n", hd[1], safeRun(st, p[1]))
 			w.Flush()
 		}
